@@ -57,8 +57,9 @@ def _b(x) -> str:
 
 
 def mk(name, writers=(2, 3), txn=False, phase=False, retries=0, status=(2,), task=(3,), adds=(), aux=False,
-       busy=False, reduced=False, simulate=0, **sw) -> dict:
+       busy=False, reduced=False, simulate=0, outs=None, **sw) -> dict:
     return {"name": name, "writers": list(writers), "txn": txn, "phase": phase, "retries": retries,
+            "outs": list(writers if outs is None else outs),
             "status": list(status), "task": list(task), "adds": list(adds), "aux": aux, "busy": busy,
             "reduced": reduced, "simulate": simulate,
             "sw": {"StageVersionCheck": True, "TaskVersionCheck": True, "MapIntegrityError": True,
@@ -68,7 +69,7 @@ def mk(name, writers=(2, 3), txn=False, phase=False, retries=0, status=(2,), tas
 def cfg_text(c: dict, root_paths: bool, invariants=()) -> str:
     lines = ["CONSTANTS",
              f"  Writers = {_set(c['writers'])}", f"  Transactional = {_b(c['txn'])}", f"  UsePhase = {_b(c['phase'])}",
-             f"  Retries = {c['retries']}", f"  SetsStatus = {_set(c['status'])}", f"  SetsTask = {_set(c['task'])}",
+             f"  Retries = {c['retries']}", f"  AddsOut = {_set(c['outs'])}", f"  SetsStatus = {_set(c['status'])}", f"  SetsTask = {_set(c['task'])}",
              f"  AddsTask = {_set(c['adds'])}", f"  AuxStage = {_b(c['aux'])}", f"  AllowBusy = {_b(c['busy'])}"]
     lines += [f"  {k} = {_b(v)}" for k, v in c["sw"].items()]
     if root_paths:
@@ -237,6 +238,7 @@ class Writer(threading.Thread):
         self.aux = None
         self.conn = None
         self.stop = False
+        self.touched = False    # the open transaction contains a statement on the contended rows
 
     def run(self) -> None:
         _tls.writer = self
@@ -283,14 +285,18 @@ class SConn(core.VConn):
 
     def commit(self):  # noqa: D102
         wt = getattr(_tls, "writer", None)
-        if wt is not None and wt.active and self.in_transaction and wt.mode == "op":
+        if wt is not None and wt.active and self.in_transaction and wt.mode == "op" and wt.touched:
             wt.park("co")
+        if wt is not None:
+            wt.touched = False
         return super().commit()
 
     def rollback(self):  # noqa: D102
         wt = getattr(_tls, "writer", None)
-        if wt is not None and wt.active and self.in_transaction and wt.mode == "op":
+        if wt is not None and wt.active and self.in_transaction and wt.mode == "op" and wt.touched:
             wt.park("rb")
+        if wt is not None:
+            wt.touched = False
         return super().rollback()
 
 
@@ -302,14 +308,17 @@ def _connect(*a, **kw):
 class Replayer:
     """One scratch database + three persistent writer threads per pool worker."""
 
-    def __init__(self, journal: str = "DELETE") -> None:
+    def __init__(self, journal: str = "DELETE", parent: str | None = None) -> None:
+        import tempfile
+
         os.environ["STABILIZE_SQLITE_JOURNAL_MODE"] = journal
         sqlite3.connect = _connect
         core.reset_volatile()
         from stabilize.persistence.sqlite.store.store import SqliteWorkflowStore
         from stabilize.queue.sqlite.queue import SqliteQueue
 
-        self.dir = core.scratch_dir("c07db")
+        # inside a directory the parent process removes (pool workers are killed without running atexit handlers)
+        self.dir = tempfile.mkdtemp(prefix="db-", dir=parent) if parent else core.scratch_dir("c07db")
         self.path = os.path.join(self.dir, "store.db")
         self.cs = "sqlite:///" + self.path
         self.store = SqliteWorkflowStore(self.cs, create_tables=True)
@@ -325,6 +334,7 @@ class Replayer:
         self.n = 0
         self.sid = self.wid = ""
         self.aux_ids: dict[int, str] = {}
+        self.task_ids: set[str] = set()
         self.handlers: dict[tuple, object] = {}
 
     def close(self) -> None:
@@ -344,7 +354,7 @@ class Replayer:
         wt.conn = self.store._get_connection()
 
     def _start(self, wt: Writer, job) -> None:
-        wt.job, wt.err, wt.abort, wt.mode, wt.res = job, None, False, "op", None
+        wt.job, wt.err, wt.abort, wt.mode, wt.res, wt.touched = job, None, False, "op", None, False
         wt.parked.clear()
         wt.go.set()
         if not wt.parked.wait(20):
@@ -378,10 +388,12 @@ class Replayer:
             kind = "ex" if p.get("id") == self.sid else None
         elif s.startswith("UPDATE stage_executions SET"):
             kind = "us" if p.get("id") == self.sid else ("ua" if p.get("id") == self.aux_ids.get(wt.w) else None)
+            if kind:
+                wt.touched = True
         elif s.startswith("UPDATE task_executions SET"):
-            kind = "ut"
+            kind = "ut" if p.get("id") in self.task_ids else None
         elif s.startswith("INSERT INTO task_executions"):
-            kind = "it"
+            kind = "it" if p.get("id") in self.task_ids else None
         elif s.startswith("INSERT OR IGNORE INTO processed_messages"):
             kind = "dc" if wt.mode == "dc" else None
         if kind:
@@ -400,6 +412,7 @@ class Replayer:
         self.n += 1
         n = self.n
         self.wid, self.sid = f"wf{n}", f"s{n}"
+        self.task_ids = {self._tid(t) for t in ("t1", "n2", "n3", "n4")}
         wf = Workflow(id=self.wid, application="verif", name="c07")
         st = StageExecution(id=self.sid, ref_id="s", type="verif", name="s", context={"k1": 1},
                             tasks=[TaskExecution(id=self._tid("t1"), name="t1", implementing_class="verif",
@@ -452,7 +465,8 @@ class Replayer:
                 wt.stage = stage
                 phase = stage.status.name
                 stage.context[f"k{w}"] = w
-                stage.outputs[f"o{w}"] = w
+                if w in c["outs"]:
+                    stage.outputs[f"o{w}"] = w
                 if w in c["status"]:
                     stage.status = WorkflowStatus[statuses[w]]
                 if w in c["task"]:
@@ -549,6 +563,11 @@ class Replayer:
                     if seen != want:
                         return self._fail("projection", i, f"statement {w}:{s['a']} must {s['r']} according to the model (next: '{s['pc']}') "
                                           f"but the store went on to '{wt.at}' ({seen})", s["r"], seen)
+                #     ... and "is retried on fresh data": after a failed attempt the model's writer re-reads the stage
+                #     (RetriedOnFresh); a writer that goes straight to its next save is retrying with the stale object
+                if s["pc"] in ("rs", "ra") and s["att"] > 1 and wt.at in ("ex", "us", "ua"):
+                    return self._fail("projection", i, f"after the failed attempt ({w}:{s['a']}:{s['r']}) writer {w} saves again ('{wt.at}') "
+                                      "without re-reading the stage: the retry works on stale data (RetriedOnFresh)", s["pc"], wt.at)
                 # (c) next statement of the writer / its reported result
                 if wt.at != s["pc"]:
                     return self._fail("statement", i, f"after {w}:{s['a']}:{s['r']} writer {w} is at '{wt.at}', the model at '{s['pc']}'",
@@ -596,11 +615,12 @@ class Replayer:
 
 
 _REP: Replayer | None = None
+SCENARIOS: dict[str, type] = {"store": Replayer}     # harness/store_pairs.py adds the engine-level pairs
 
 
-def _worker_init(journal: str) -> None:
+def _worker_init(journal: str, scenario: str = "store", parent: str | None = None) -> None:
     global _REP
-    _REP = Replayer(journal)
+    _REP = SCENARIOS[scenario](journal, parent)
     import atexit
 
     atexit.register(_REP.close)
@@ -627,7 +647,7 @@ def _worker_job(args) -> tuple[int, list[dict], dict | None]:
     return n, out, sample
 
 
-def replay_all(work: list[tuple[dict, list]], journal: str, corrupt: dict | None = None):
+def replay_all(work: list[tuple[dict, list]], journal: str, corrupt: dict | None = None, scenario: str = "store"):
     """work: [(config, [(chunk file | list of behaviours, first index, set of picked offsets | None)])]
     -> (#replayed, failures, wall, {config: (#replayed, one sample behaviour)})."""
     import concurrent.futures as cf
@@ -643,19 +663,22 @@ def replay_all(work: list[tuple[dict, list]], journal: str, corrupt: dict | None
     n = 0
     if not jobs:
         return 0, [], 0.0, per
-    # big jobs first so the pool drains evenly
-    with cf.ProcessPoolExecutor(max_workers=NPROC, mp_context=mp.get_context("fork"), initializer=_worker_init,
-                                initargs=(journal,)) as ex:
-        for job, (k, res, sample) in zip(jobs, ex.map(_worker_job, jobs, chunksize=1)):
-            c = job[0]
-            n += k
-            e = per.setdefault(c["name"], [0, None])
-            e[0] += k
-            if e[1] is None and sample is not None:
-                e[1] = sample
-            for r in res:
-                r["config"] = c["name"]
-                fails.append(r)
+    parent = core.scratch_dir("c07db")
+    try:
+        with cf.ProcessPoolExecutor(max_workers=NPROC, mp_context=mp.get_context("fork"), initializer=_worker_init,
+                                    initargs=(journal, scenario, parent)) as ex:
+            for job, (k, res, sample) in zip(jobs, ex.map(_worker_job, jobs, chunksize=1)):
+                c = job[0]
+                n += k
+                e = per.setdefault(c["name"], [0, None])
+                e[0] += k
+                if e[1] is None and sample is not None:
+                    e[1] = sample
+                for r in res:
+                    r["config"] = c["name"]
+                    fails.append(r)
+    finally:
+        shutil.rmtree(parent, ignore_errors=True)
     return n, fails, time.time() - t0, per
 
 
